@@ -7,6 +7,7 @@ import (
 
 	"github.com/goatcms/goatcore/app"
 	"github.com/goatcms/goatcore/varutil/goaterr"
+	"github.com/goatcms/goatcore/verifhook"
 )
 
 // The isolated scope is a isolated context scope depended from parent scope. The isolated scope doesn't affect parent.
@@ -27,6 +28,7 @@ func NewIsolated(parent app.ContextScope) app.ContextScope {
 	go func() {
 		select {
 		case <-parent.Done():
+			verifhook.Yield("isolated.prop.parent")
 			// the gorutine kill isolated context if parent die.
 			if len(parent.Errors()) != 0 {
 				isolated.Kill()
@@ -34,6 +36,7 @@ func NewIsolated(parent app.ContextScope) app.ContextScope {
 			}
 			isolated.Stop()
 		case <-isolated.done:
+			verifhook.Yield("isolated.prop.self")
 			// stop gorutine if isolated context die (prevent memory leaks)
 			return
 		}
@@ -59,6 +62,7 @@ func (scp *Isolated) IsDone() bool {
 	case <-scp.done:
 		return true
 	default:
+		verifhook.Yield("isolated.isdone.miss")
 	}
 	return false
 }
